@@ -9,12 +9,16 @@ import Dirk.Spec.Perms
 import Dirk.Spec.Import
 import Dirk.Model.Scatter
 import Dirk.Model.LockTrace
+import Dirk.Model.Dkg
+import Dirk.Model.Lister
+import Dirk.Spec.Listing
 
 namespace Driver
 open Dirk
 
 structure DState where
   accounts : List Account := []
+  wallets : List String := []
   perms : Perms := []
   adminIPs : List String := []
   raw : Db := []
@@ -26,6 +30,8 @@ structure DState where
   jfile : IFile := { metadata := none, data := [] }
   dbB : Option Db := none          -- the re-imported copy after `roundtrip`
   lastTrace : List LTok := []
+  cluster : Dkg.Cluster := { insts := [], peers := [], timeout := 0 }
+  minsts : List (Nat × Inst) := []     -- per-instance signer models of a cluster (C14)
   linBase : Option Inst := none    -- instance state at `lin-begin`
   linOps : List (Nat × Nat × List String × String) := []   -- (t_inv, t_res, observed states, op line)
   deriving Inhabited
@@ -92,6 +98,72 @@ def parseProt (a b c : String) : Option Protection :=
   | some a, some b, some c => some { slot := a, src := b, tgt := c }
   | _, _, _ => none
 
+/-- order of the BLS12-381 scalar field -/
+def blsR : Nat := 0x73eda753299d7d483339d80809a1d80553bda402fffe5bfeffffffff00000001
+
+def powMod (b e m : Nat) : Nat := Id.run do
+  let mut result := 1
+  let mut base := b % m
+  let mut ex := e
+  for _ in [0:300] do
+    if ex == 0 then break
+    if ex % 2 == 1 then result := result * base % m
+    base := base * base % m
+    ex := ex / 2
+  return result
+
+def invMod (a : Nat) : Nat := powMod a (blsR - 2) blsR
+
+/-- Lagrange interpolation at 0 over Z_r of the points (id, share): Σ_j s_j · Π_{m≠j} x_m / (x_m − x_j) -/
+def lagrangeAtZero (pts : List (Nat × Nat)) : Nat :=
+  pts.foldl (fun acc p =>
+    let (xj, sj) := p
+    let lam := pts.foldl (fun l q =>
+      let xm := q.1
+      if xm == xj then l else
+      let num := xm % blsR
+      let den := (xm + blsR - xj % blsR) % blsR
+      l * num % blsR * invMod den % blsR) 1
+    (acc + sj % blsR * lam) % blsR) 0
+
+def natOfHexBE (s : String) : Option Nat :=
+  s.toList.foldlM (fun acc c => (hexDigit c).map (fun d => acc * 16 + d)) 0
+
+def hexOfNat32 (n : Nat) : String :=
+  String.ofList ((List.range 64).reverse.map (fun i => nib (n / 16 ^ i % 16)))
+
+def parseIds (s : String) : Option (List Nat) :=
+  if s == "-" || s == "" then some [] else (s.splitOn ",").mapM String.toNat?
+
+/-- caller name → peer id: `signer-testNN` is peer number NN (1-based index into the cluster's id list) -/
+def callerId (c : Dkg.Cluster) (name : String) : Nat :=
+  -- the harness names peer number k (1-based position in the id list) `signer-test%02d`
+  let names := (List.range c.peers.length).map (fun k =>
+    "signer-test" ++ (if k + 1 < 10 then "0" else "") ++ toString (k + 1))
+  match names.idxOf? name with
+  | some k => c.peers.getD k 0
+  | none => 0
+
+def faultKind (f : String) : Dkg.GenFault :=
+  if f == "-" then .none else
+  let k := (f.splitOn ":").headD ""
+  if k == "drop" || k == "err" then .lost
+  else if k == "commitpub" || k == "commitsig" then .badCommitReply
+  else if k == "dup" || k == "delay" then .none
+  else .badContribution
+
+/-- the signer model of cluster instance `i`, knowing account `w/a` (keyed by an instance-specific key) -/
+def clusterInst (minsts : List (Nat × Inst)) (i : Nat) (w a : String) : Inst :=
+  let allPath : CPath := { wallet := Re.star Re.anyAll, account := Re.star Re.anyAll, ops := ["All"] }
+  let base : Inst := match minsts.lookup i with
+    | some x => x
+    | none => { cfg := { access := [("client1", [allPath])] } }
+  if base.cfg.accounts.any (fun x => x.wallet == w && x.name == a) then base
+  else
+    let acct : Account := { wallet := w, name := a,
+                            pubkey := [UInt8.ofNat (i % 256), UInt8.ofNat (i / 256 % 256), UInt8.ofNat base.cfg.accounts.length] }
+    { base with cfg := { base.cfg with accounts := base.cfg.accounts ++ [acct] } }
+
 def bad (st : DState) (l : String) : DState × Option String := (st, some ("bad-op " ++ l))
 
 def dstepCore (st : DState) (line : String) : DState × Option String :=
@@ -109,6 +181,10 @@ def dstepCore (st : DState) (line : String) : DState × Option String :=
       | some ops => ({ st with perms := addPerm st.perms c { path := p, ops := ops } }, none)
       | none => bad st line
     | _, _ => bad st line
+  | ["wallet", w] =>
+    match unhexStr w with
+    | some w => ({ st with wallets := st.wallets ++ [w] }, none)
+    | none => bad st line
   | ["permclient", c] =>          -- a client with an empty entry list
     match unhexStr c with
     | some c => ({ st with perms := st.perms ++ [(c, [])] }, none)
@@ -125,11 +201,48 @@ def dstepCore (st : DState) (line : String) : DState × Option String :=
   | ["begin"] =>
     let rx := if st.legacyRegex then regexifyLegacy else regexify
     match compilePerms rx st.perms with
-    | none => ({ st with inst := { cfg := { accounts := st.accounts, adminIPs := st.adminIPs }, db := st.raw } }, some "newfail")
+    | none => ({ st with inst := { cfg := { wallets := st.wallets, accounts := st.accounts, adminIPs := st.adminIPs }, db := st.raw } }, some "newfail")
     | some acc =>
-      ({ st with inst := { cfg := { accounts := st.accounts, access := acc, adminIPs := st.adminIPs }, db := st.raw } },
+      ({ st with inst := { cfg := { wallets := st.wallets, accounts := st.accounts, access := acc, adminIPs := st.adminIPs }, db := st.raw } },
        some "ok")
   | ["reset"] => ({}, none)
+  | ["list", c, paths] =>
+    let ps := if paths == "-" then some [] else (paths.splitOn ",").mapM hs
+    match unhexStr c <|> (if c == "." then some "" else none), ps with
+    | some c, some ps =>
+      let names := sortStrings ((listAccounts st.inst.cfg c ps).map (fun a => hexStr (a.wallet ++ "/" ++ a.name)))
+      (st, some ("S " ++ (if names.isEmpty then "-" else ",".intercalate names)))
+    | _, _ => bad st line
+  | ["create", c, acct] =>
+    match unhexStr c, unhexStr acct with
+    | some c, some acct =>
+      match createAccount st.inst.cfg c acct acct.toUTF8.toList with
+      | some cfg' => ({ st with inst := { st.inst with cfg := cfg' } }, some "ok")
+      | none => (st, some "err")
+    | _, _ => bad st line
+  -- judge C18: the implementation reported that it created this account (so later listings must show it)
+  | ["jcreate", acct] =>
+    match unhexStr acct with
+    | some acct =>
+      match walletAndAccount acct with
+      | some (w, a) =>
+        let cfg := st.inst.cfg
+        ({ st with inst := { st.inst with cfg := { cfg with accounts := cfg.accounts ++ [{ wallet := w, name := a, pubkey := [] }] } } }, some "ok")
+      | none => bad st line
+    | none => bad st line
+  -- judge C18: the implementation listed `names` for (client, paths): sound and complete per the Lean spec?
+  | ["jlist", c, paths, names] =>
+    let ps := if paths == "-" then some [] else (paths.splitOn ",").mapM hs
+    let ns := if names == "-" then some [] else (names.splitOn ",").mapM hs
+    match unhexStr c <|> (if c == "." then some "" else none), ps, ns with
+    | some c, some ps, some ns =>
+      let accts := st.inst.cfg.accounts
+      let unsound := ns.filter (fun n => !Spec.mayList st.perms accts c ps n)
+      let missing := (accts.filter (fun a => Spec.mustList st.perms c ps a)).filter (fun a => !ns.contains (a.wallet ++ "/" ++ a.name))
+      (st, some (if !unsound.isEmpty then "LISTED-NOT-ALLOWED " ++ hexStr (unsound.headD "")
+                 else if !missing.isEmpty then "MISSING " ++ hexStr ((missing.head?.map (fun a => a.wallet ++ "/" ++ a.name)).getD "")
+                 else "ok"))
+    | _, _, _ => bad st line
   | ["check", c, acct, op] =>
     match unhexStr c, unhexStr acct, unhexStr op with
     | some c, some acct, some op => (st, some (if check st.inst.cfg.access c acct op then "1" else "0"))
@@ -180,7 +293,125 @@ def dstepCore (st : DState) (line : String) : DState × Option String :=
       let (s', ps) := multisign st.inst c ip its f.signFail
       ({ st with inst := s', lastTrace := traceMsign st.inst c its ++ List.replicate (ps.filter (·.root.isSome)).length .sign }, some (manyStr ps))
     | _, _, _, _ => bad st line
+  -- dkg engine
+  | ["cluster", ids, ms] =>
+    match parseIds ids, ms.toNat? with
+    | some ids, some ms =>
+      let cl : Dkg.Cluster := { insts := ids.map (fun i => { id := i }), peers := ids, timeout := if ms == 0 then 600000 else ms }
+      ({ st with minsts := [], cluster := cl }, some "ok")
+    | _, _ => bad st line
+  | ["gen", ini, client, acct, t, n, fault] =>
+    match ini.toNat?, unhexStr client, unhexStr acct, t.toNat?, n.toNat? with
+    | some ini, some client, some acct, some t, some n =>
+      let c := st.cluster
+      let exists_ := match Dkg.getInst c ini with
+        | some x => x.accounts.contains acct
+        | none => false
+      let permitted := client == "client1"
+      let (ok, allHold) := Dkg.generateOutcome c.insts.length n t (Dkg.distributedWallet acct) exists_ permitted (faultKind fault)
+      let c' := if allHold && n == c.insts.length then
+                  { c with insts := c.insts.map (fun x => { x with accounts := acct :: x.accounts }) }
+                else if allHold && n == 1 then
+                  { c with insts := c.insts.map (fun x => if x.id == ini then { x with accounts := acct :: x.accounts } else x) }
+                else c
+      ({ st with cluster := c' }, some (if ok then "ok" else "err"))
+    | _, _, _, _, _ => bad st line
+  | ["holds", acct] =>
+    match unhexStr acct with
+    | some acct =>
+      (st, some (" ".intercalate (st.cluster.insts.map (fun x =>
+        let h := x.accounts.contains acct
+        toString x.id ++ ":" ++ toString h ++ ":" ++ toString h))))
+    | none => bad st line
+  | ["hprepare", i, caller, acct, t, parts] =>
+    match i.toNat?, hs caller, unhexStr acct, t.toNat?, parseIds parts with
+    | some i, some caller, some acct, some t, some parts =>
+      let (c, r) := Dkg.onPrepare st.cluster i (callerId st.cluster caller) acct t parts
+      ({ st with cluster := c }, some r.toStr)
+    | _, _, _, _, _ => bad st line
+  | ["hexecute", i, caller, acct] =>
+    match i.toNat?, hs caller, unhexStr acct with
+    | some i, some caller, some acct =>
+      let (c, r) := Dkg.onExecute st.cluster i (callerId st.cluster caller) acct
+      ({ st with cluster := c }, some r.toStr)
+    | _, _, _ => bad st line
+  | ["hcommit", i, caller, acct] =>
+    match i.toNat?, hs caller, unhexStr acct with
+    | some i, some caller, some acct =>
+      let (c, r) := Dkg.onCommit st.cluster i (callerId st.cluster caller) acct
+      ({ st with cluster := c }, some r.toStr)
+    | _, _, _ => bad st line
+  | ["habort", i, caller, acct] =>
+    match i.toNat?, hs caller, unhexStr acct with
+    | some i, some caller, some acct =>
+      let (c, r) := Dkg.onAbort st.cluster i (callerId st.cluster caller) acct
+      ({ st with cluster := c }, some r.toStr)
+    | _, _, _ => bad st line
+  | ["hcontribute", i, caller, acct] =>
+    match i.toNat?, hs caller, unhexStr acct with
+    | some i, some caller, some acct =>
+      -- the harness sends a syntactically valid contribution whose share does not match the session
+      let (c, r) := Dkg.onContribute st.cluster i (callerId st.cluster caller) acct false 1
+      ({ st with cluster := c }, some r.toStr)
+    | _, _, _ => bad st line
+  -- C14: a request to instance i's own signer (own rules store); the distributed account is known to
+  -- every instance under its name, keyed by the instance's own share (abstracted to the instance id)
+  | ["iatt", i, acct, d] =>
+    match i.toNat?, unhexStr acct, parseAtt (d.splitOn ",") with
+    | some i, some acct, some d =>
+      let (w, a) := match walletAndAccount acct with
+        | some p => p
+        | none => ("", "")
+      let base := clusterInst st.minsts i w a
+      let (s', p) := signAtt base "client1" { name := acct } d {} false
+      ({ st with minsts := (i, s') :: st.minsts.filter (·.1 != i) }, some (posStr p))
+    | _, _, _ => bad st line
+  | ["iprop", i, acct, d] =>
+    match i.toNat?, unhexStr acct, parseProp (d.splitOn ",") with
+    | some i, some acct, some d =>
+      let (w, a) := match walletAndAccount acct with
+        | some p => p
+        | none => ("", "")
+      let base := clusterInst st.minsts i w a
+      let (s', p) := signProp base "client1" { name := acct } d {} false
+      ({ st with minsts := (i, s') :: st.minsts.filter (·.1 != i) }, some (posStr p))
+    | _, _, _ => bad st line
+  -- judge C14: with threshold t, two conflicting duties collected c1 and c2 partial signatures
+  | ["jquorum", t, c1, c2] =>
+    match t.toNat?, c1.toNat?, c2.toNat? with
+    | some t, some c1, some c2 =>
+      (st, some (if decide (t ≤ c1) && decide (t ≤ c2) then "BOTH-REACH-THRESHOLD" else "ok"))
+    | _, _, _ => bad st line
+  -- judge C17: the implementation answered `reply` to a commit at instance i; a successful commit
+  -- requires an active generation in which every listed participant has contributed
+  | ["jcommit", i, acct, reply] =>
+    match i.toNat?, unhexStr acct with
+    | some i, some acct =>
+      if reply != "ok" then (st, some "ok") else
+      match Dkg.getInst st.cluster i with
+      | none => (st, some "COMMIT-WITHOUT-GENERATION")
+      | some x =>
+        match (Dkg.active st.cluster x acct).1 with
+        | none => (st, some "COMMIT-WITHOUT-GENERATION")
+        | some s =>
+          (st, some (if s.participants.all (fun p => s.contributed.contains p) then "ok" else "COMMIT-INCOMPLETE"))
+    | _, _ => bad st line
+  | ["sleep", ms] =>
+    match ms.toNat? with
+    | some ms => ({ st with cluster := Dkg.tick st.cluster ms }, some "ok")
+    | none => bad st line
+  -- Lagrange recovery of the group secret from extracted shares, over Z_r: `lagrange id:sharehex …`
+  | "lagrange" :: pts =>
+    let ps := pts.mapM (fun p => match p.splitOn ":" with
+      | [i, h] => match i.toNat?, natOfHexBE h with
+        | some i, some v => some (i, v)
+        | _, _ => none
+      | _ => none)
+    match ps with
+    | some ps => (st, some (hexOfNat32 (lagrangeAtZero ps)))
+    | none => bad st line
   | ["locktrace"] => (st, none)
+  | ["nocache"] => (st, none)
   | ["ltrace"] =>
     let tok (t : LTok) : String := match t with
       | .pre => "P" | .post => "Q" | .fetch => "F" | .store => "S" | .stored => "X" | .sign => "G"
